@@ -332,6 +332,10 @@ impl Plane {
     while !self.content[0].is_empty() {
       pivot_content.push(vec![]);
       for row in 0..self.content.len() {
+        if self.content[row].is_empty() {
+          // a ragged plane (rows of different lengths) comes from a malformed drawing, it is rejected later
+          continue;
+        }
         let cell = self.content[row].remove(0);
         let new_cell = match cell {
           Cell::Region(n, r, t) => Cell::Region(n, r, t),
@@ -471,6 +475,10 @@ impl Plane {
     let mut row = 0;
     while !self.is_horizontal_output_double_line(row, 0) {
       row += 1;
+      if row >= self.content.len() {
+        // no horizontal output double line in the first column
+        return Ok(RuleNumbersPlacement::NotPresent);
+      }
     }
     row += 1;
     let mut max_rule_number = 0;
@@ -500,9 +508,16 @@ impl Plane {
   /// Checks if rule numbers are placed on the right side after vertical output double line.
   fn recognize_vertical_rule_numbers(&self) -> Result<RuleNumbersPlacement> {
     let mut col = 0;
+    if self.content.is_empty() {
+      return Ok(RuleNumbersPlacement::NotPresent);
+    }
     let row = self.content.len() - 1;
     while !self.is_vertical_output_double_line(row, col) {
       col += 1;
+      if col >= self.content[row].len() {
+        // no vertical output double line in the last row
+        return Ok(RuleNumbersPlacement::NotPresent);
+      }
     }
     col += 1;
     let mut max_rule_number = 0;
@@ -532,12 +547,12 @@ impl Plane {
   /// Checks if the cell pointed by coordinates **row** and **col**
   /// is a horizontal output double line.
   fn is_horizontal_output_double_line(&self, row: usize, col: usize) -> bool {
-    self.content[row][col] == Cell::HorizontalOutputDoubleLine
+    self.content.get(row).and_then(|cells| cells.get(col)) == Some(&Cell::HorizontalOutputDoubleLine)
   }
   /// Checks if the cell pointed by coordinates **row** and **col**
   /// is a vertical output double line.
   fn is_vertical_output_double_line(&self, row: usize, col: usize) -> bool {
-    self.content[row][col] == Cell::VerticalOutputDoubleLine
+    self.content.get(row).and_then(|cells| cells.get(col)) == Some(&Cell::VerticalOutputDoubleLine)
   }
 }
 
